@@ -123,6 +123,147 @@ def report(ctx, d, violation_kinds, correspondence_kinds, what):
                                            "the property is no longer shown to hold"}, found_input=False)
 
 
+# ----------------------------------------------------------------------------- in-place walks
+
+INPLACE_TEXTS = [
+    "4x + (2x + 3x)", "(4x + 2x) + 3x", "4x + 2x + 3x + y", "2x + (3x + (4x + 5x))", "a + 1 = b = c", "x + 2 = y = z + 1",
+    "a / b + c / d", "x / 2 + y / 3 - z / 4", "2x - y = 7", "4 - 3x = 2 - y", "(x + 2) * (y + 3)", "2 * (x + 3) * (y + 1)",
+    "x * x^2 * x^3", "2x * 3x * 4x", "7 + 2y + 0y", "3x - (2x + y + z)", "4x^2 + 2x^2 + x", "x = 2 + 3 = y",
+    "(a + b) + (c + d)", "a * (b * (c * d))", "4 - (3 - x)", "2x + 3 = 7 - x", "1 / x + 2 / x", "6x / 3 + 2",
+]
+
+
+def inplace_walk_case(args):
+    """a random walk on the real code where every rule is applied IN PLACE to the node objects of
+    the current tree (no cloning between steps), with the long-lived rule instances, and every
+    rule is asked for its applicable nodes before every step.  Returns steps + problems, each
+    problem tagged with the property it concerns."""
+    start_text, seed, length = args
+    from .props_tree import expr_signature, path_to
+    rng = random.Random(seed)
+    out = {"start": start_text, "steps": [], "problems": []}
+    try:
+        current = core.parse_fresh(start_text)
+        start_tuple = core.to_tuple(current)
+    except Exception:
+        return None
+    eq = is_eq(start_tuple)
+    for step in range(length):
+        options = []
+        for rn in core.RULE_NAMES:
+            try:
+                for n in core.rule_instance(rn).find_nodes(current):
+                    options.append((rn, n.r_index))
+            except Exception as e:  # noqa
+                out["problems"].append({"prop": "C06", "step": step, "what": f"find_nodes({rn}) raised {type(e).__name__}"})
+        if not options:
+            break
+        rn, idx = rng.choice(options)
+        rule = core.rule_instance(rn)
+        nodes = core.inorder(current)
+        node = nodes[idx]
+        tags = core.tag_map(current)
+        try:
+            before = core.to_tuple(current, tags)
+        except core.Unmodelled:
+            break
+        rec = {"rule": rn, "idx": idx, "before": before}
+        try:
+            if not rule.can_apply_to(node):
+                out["problems"].append({"prop": "C06", "step": step, "rule": rn, "idx": idx,
+                                        "what": "find_nodes listed a node that can_apply_to rejects"})
+                break
+            change = rule.apply_to(node)
+            if change.result is None:
+                raise RuntimeError("change.result is None")
+            new_root = change.result.get_root()
+        except Exception as e:  # noqa
+            out["problems"].append({"prop": "C06", "step": step, "rule": rn, "idx": idx,
+                                    "state": core.tuple_str(before),
+                                    "what": f"reported applicable but apply_to raised {type(e).__name__}: {e}"[:240]})
+            break
+        probs = core.audit_links(new_root)
+        if probs:
+            out["problems"].append({"prop": "C07", "step": step, "rule": rn, "idx": idx, "state": core.tuple_str(before),
+                                    "what": "malformed tree after an in-place rewrite", "audit": [str(x) for x in probs[:3]]})
+            out["steps"].append(rec)
+            break
+        try:
+            after = core.to_tuple(new_root, tags)
+        except core.Unmodelled:
+            rec["unmodelled"] = True
+            out["steps"].append(rec)
+            break
+        rec["after"] = after
+        out["steps"].append(rec)
+        if core.tuple_vars(after) != core.tuple_vars(before):
+            out["problems"].append({"prop": "C07", "step": step, "rule": rn, "idx": idx, "what": "variable set changed",
+                                    "state": core.tuple_str(before), "result": core.tuple_str(after)})
+        w = core.refines(before, after)
+        if w is not None:
+            out["problems"].append({"prop": "C02" if eq else "C01", "step": step, "rule": rn, "idx": idx,
+                                    "what": "rewrite changed the value / solution set", "witness": w,
+                                    "state": core.tuple_str(before), "result": core.tuple_str(after)})
+        w = core.refines(start_tuple, after)
+        if w is not None:
+            out["problems"].append({"prop": "C09", "step": step, "rule": rn, "idx": idx, "what": "not equivalent to the start",
+                                    "witness": w, "state": core.tuple_str(after)})
+        current = new_root
+        # clone_from_root of nodes of a tree that has been rewritten in place
+        objs = core.inorder(current)
+        sig = expr_signature(current)
+        for k in sorted({rng.randrange(len(objs)) for _ in range(3)}):
+            try:
+                got = objs[k].clone_from_root()
+                if expr_signature(got.get_root()) != sig or path_to(got) != path_to(objs[k]):
+                    out["problems"].append({"prop": "C13", "step": step, "node": k, "state": core.tuple_str(after),
+                                            "what": "clone_from_root after in-place rewrites: wrong copy / position"})
+            except Exception as e:  # noqa
+                out["problems"].append({"prop": "C13", "step": step, "node": k, "state": core.tuple_str(after),
+                                        "what": f"clone_from_root raised {type(e).__name__} after in-place rewrites: {e}"[:200]})
+        if any(p["step"] == step for p in out["problems"]):
+            break
+    return out
+
+
+def inplace_family(ctx, prop):
+    """problems of the in-place walks that concern `prop`, as (problem, walk) pairs"""
+    import multiprocessing as mp
+    rng = random.Random(ctx.seed * 31337 + 77)
+    quick = ctx.tier == "quick"
+    starts = list(dict.fromkeys(INPLACE_TEXTS + gen.PATTERN_TEXTS + gen.rule_test_texts()
+                                + gen.template_texts()[:: 9 if quick else 2]))
+    for _ in range(100 if quick else 3000):
+        t = gen.rand_tree(rng, rng.choice([2, 3, 3, 4]), allow_eq=rng.random() < 0.3)
+        txt, r = gen.reachable(t)
+        if r is not None and core.tuple_size(r) <= 40:
+            starts.append(txt)
+    length = 6 if quick else 25
+    jobs = [(s, rng.randrange(1 << 30), length) for s in starts for _ in range(3 if quick else 8)]
+    jobs += [(s, rng.randrange(1 << 30), length) for s in INPLACE_TEXTS for _ in range(30 if quick else 300)]
+    # ONE process per chunk of walks keeps its rule instances for all of them (long-lived rules)
+    with mp.Pool(16) as pool:
+        walks = [w for w in pool.imap(inplace_walk_case, jobs, chunksize=16) if w is not None]
+    nsteps = sum(len(w["steps"]) for w in walks)
+    ctx.notes["inplace_walks"] = {"walks": len(walks), "steps": nsteps}
+    ctx.coverage["evaluations"] += len(walks)
+    ctx.coverage["traces_validated_against_impl"] += nsteps
+    out = []
+    for w in walks:
+        for p in w["problems"]:
+            if p["prop"] == prop:
+                out.append(dict(p, start=w["start"], in_place=True,
+                                sequence=[(s["rule"], s["idx"]) for s in w["steps"]]))
+    return out, walks
+
+
+def report_inplace(ctx, prop, what):
+    probs, walks = inplace_family(ctx, prop)
+    for p in probs[:5]:
+        ctx.violation("inplace", dict(p, observation="in-place rewrite sequence on the same node objects", what=what))
+    return walks
+
+
 def c01(ctx):
     ctx.coverage["rule"] = (
         "inputs: parser images of (a) hand-written texts covering every get_type arrangement and the repo's rule "
@@ -133,6 +274,7 @@ def c01(ctx):
     )
     recs, d = family_run(ctx, want_equations=False)
     report(ctx, d, ["value"], ["shape"], "value preservation of rewrites (non-equation trees)")
+    report_inplace(ctx, "C01", "value preservation of rewrites (in-place sequences, long-lived rule objects)")
 
 
 def c02(ctx):
@@ -143,6 +285,7 @@ def c02(ctx):
     )
     recs, d = family_run(ctx, want_equations=True)
     report(ctx, d, ["value"], ["shape"], "solution-set preservation of rewrites on equations")
+    report_inplace(ctx, "C02", "solution-set preservation of rewrites on equations (in-place sequences)")
 
 
 def c06(ctx):
@@ -153,6 +296,7 @@ def c06(ctx):
     )
     recs, d = family_run(ctx, want_equations=None)
     report(ctx, d, ["apply_fail", "purity", "find_meta", "second_step"], ["find"], "applicable => appliable; purity; node search")
+    report_inplace(ctx, "C06", "applicable => appliable on trees rewritten in place")
 
 
 def c07(ctx):
@@ -165,6 +309,7 @@ def c07(ctx):
     # C07 consumes identities, links, context and variables of the results; whether the result has
     # the SHAPE the model predicts is C01/C02/C08's business (a value-changing rewrite is theirs)
     report(ctx, d, ["audit", "vars", "orig"], ["ident"], "structural soundness and untouched context")
+    report_inplace(ctx, "C07", "structural soundness after in-place rewrite sequences")
 
 
 # ----------------------------------------------------------------------------- C09 sequences
@@ -312,6 +457,29 @@ def c09(ctx):
     for w in walks:
         for p in w["problems"]:
             bad.append({"start": w["start"], "sequence": [(s["rule"], s["idx"]) for s in w["steps"]], **p})
+    # in-place sequences (the same node objects rewritten again and again, long-lived rule objects):
+    # oracle problems, and every step replayed on the model from the implementation's current tree
+    iprobs, iwalks = inplace_family(ctx, "C09")
+    bad.extend(iprobs)
+    ilines, iwhere = [], []
+    for w in iwalks:
+        for si, st in enumerate(w["steps"]):
+            if "after" in st:
+                ilines.append(f"apply {st['rule']} {st['idx']} {core.tuple_to_wire(st['before'])}")
+                iwhere.append((w, si, st))
+    for (w, si, st), a in zip(iwhere, drv.ask(ilines)):
+        toks = a.split()
+        nsteps += 1
+        if toks[0] == "err":
+            if toks[1] != "outOfDomain":
+                diffs.append({"start": w["start"], "in_place": True, "step": si, "rule": st["rule"], "idx": st["idx"],
+                              "before": core.tuple_str(st["before"]), "impl": core.tuple_str(st["after"]), "model": a})
+            continue
+        m = core.wire_to_tuple(toks, 1)[0]
+        if not core.tuples_agree(st["after"], m, with_tags=False):
+            diffs.append({"start": w["start"], "in_place": True, "step": si, "rule": st["rule"], "idx": st["idx"],
+                          "before": core.tuple_str(st["before"]), "impl": core.tuple_to_wire(st["after"]),
+                          "model": core.tuple_to_wire(m)})
     ctx.coverage["evaluations"] += len(walks)
     ctx.coverage["distinct_nontrivial"] += nsteps
     ctx.coverage["traces_validated_against_impl"] += nsteps
